@@ -291,3 +291,60 @@ func VerifC01_sequence() {
 	vfObserveStr("a", a.String())
 	vfObserveStr("b", b.String())
 }
+
+type vfPlainPtr struct{ X, Y int }
+
+// VerifC01_lazy: the text is taken when the cell is made (or updated), not when it is read: an item
+// without text methods that is formatted by %v - a pointer to a struct, a slice, a map - and is mutated
+// right after the cell was made, before anything read the cell, still shows the text it had then.
+func VerifC01_lazy() {
+	x := vfInt("x", 0, 3)
+	var item interface{}
+	var mutate func()
+	old, fresh := "", ""
+	switch vfChoice("kind", 3) {
+	case 0:
+		p := &vfPlainPtr{x, 2}
+		item, mutate = p, func() { p.X = 7 }
+		old, fresh = fmt.Sprintf("&{%d 2}", x), "&{7 2}"
+	case 1:
+		sl := []int{x, 2}
+		item, mutate = sl, func() { sl[0] = 7 }
+		old, fresh = fmt.Sprintf("[%d 2]", x), "[7 2]"
+	case 2:
+		m := map[string]int{"k": x}
+		item, mutate = m, func() { m["k"] = 7 }
+		old, fresh = fmt.Sprintf("map[k:%d]", x), "map[k:7]"
+	}
+	var c *Cell
+	switch vfChoice("via", 3) {
+	case 0:
+		cell := NewCell(item)
+		c = &cell
+	case 1:
+		t := New()
+		t.AddRowItems("a", item)
+		c, _ = t.CellAt(CellLocation{Row: 1, Column: 2})
+	case 2:
+		inner := NewCell(item)
+		outer := NewCell(inner)
+		c = &outer
+	}
+	mutate()
+	first := vfChoice("first-read", 3)
+	switch first {
+	case 0:
+		vfAssert(c.String() == old, "stale-text")
+	case 1:
+		vfAssert(!c.Empty(), "stale-empty-iff-text-empty")
+	case 2:
+		vfAssert(c.TerminalCellWidth() == len(old), "stale-width-of-that-text")
+	}
+	vfAssert(c.String() == old, "stale-text")
+	vfAssert(c.String() == old, "stale-text") // two reads agree
+	if vfChoice("via", 3) != 2 {
+		c.Update()
+		vfAssert(c.String() == fresh, "fresh-text")
+	}
+	vfObserveStr("text", c.String())
+}
